@@ -71,11 +71,14 @@ func (m *Mux) NewEndpoint(matchFunc MatchFunc) *Endpoint {
 	// Set a maximum size of the buffer in bytes.
 	endpoint.buffer.SetLimitSize(maxBufferSize)
 
+	verifhook.Yield("mux.pending.entry", m, 0)
+	// Register the endpoint and hand it the matching pending packets in one
+	// critical section, so that no packet dispatched after the registration
+	// can overtake the ones that were queued before it.
 	m.lock.Lock()
 	m.endpoints[endpoint] = matchFunc
+	m.handlePendingPackets(endpoint, matchFunc)
 	m.lock.Unlock()
-
-	go m.handlePendingPackets(endpoint, matchFunc)
 
 	return endpoint
 }
@@ -199,11 +202,8 @@ func (m *Mux) dispatch(buf []byte) error {
 	return err
 }
 
+// handlePendingPackets must be called with m.lock held.
 func (m *Mux) handlePendingPackets(endpoint *Endpoint, matchFunc MatchFunc) {
-	verifhook.Yield("mux.pending.entry", m, 0)
-	m.lock.Lock()
-	defer m.lock.Unlock()
-
 	pendingPackets := make([][]byte, 0, len(m.pendingPackets))
 	for _, buf := range m.pendingPackets {
 		if matchFunc(buf) {
